@@ -36,6 +36,14 @@ var shapeText = map[string]string{
 	"negint": "-1", "codes": "[0'a,0'b]", "pair_list": "[a-1,b-2]", "op_atom": "+",
 }
 
+// the same shapes reached through a variable that an EARLIER goal of the query binds (a plain goal of the conjunction: the
+// bindings are in force at run time only, call/1 would compile them into the term): <earlier goal, argument>; %d = position
+var shapeIndirect = map[string][2]string{
+	"list": {"T%d = [b]", "[a|T%d]"}, "codes": {"T%d = [0'b]", "[0'a|T%d]"}, "pair_list": {"T%d = [b-2]", "[a-1|T%d]"}, "charlist": {"T%d = \"b\"", "[a|T%d]"},
+	"compound": {"T%d = x", "f(T%d)"}, "callable_cut": {"T%d = !", "(true, T%d)"}, "pi": {"T%d = foo", "T%d/1"}, "minus1": {"T%d = 1", "-(T%d)"},
+	"improper": {"T%d = b", "[a|T%d]"}, "partial": {"T%d = [b|_]", "[a|T%d]"},
+}
+
 var robustPreds map[int][]string
 
 func loadPreds() {
@@ -107,6 +115,8 @@ func callGoal(p *prolog.Interpreter, q string, iso map[string]bool, pred string)
 		n := 0
 		for n < 5 && sols.Next() {
 			n++
+			// the answer is taken the way a host takes it: a term that cannot be walked would show here
+			_ = sols.Scan(map[string]prolog.TermString{})
 		}
 		err = sols.Err()
 		_ = sols.Close()
@@ -222,29 +232,55 @@ func robustHandle(c map[string]J) map[string]J {
 		loadPreds()
 	}
 	args := c["args"].([]J)
-	var as []string
-	for _, a := range args {
-		as = append(as, shapeText[a.(string)])
+	// two variants of every tuple: the arguments written in the goal, and the arguments (or the tail / an argument of them)
+	// reached through variables bound by earlier goals
+	var as, ias, pres []string
+	for i, a := range args {
+		t := shapeText[a.(string)]
+		if t == "_" {
+			t = fmt.Sprintf("V%d", i+1)
+		}
+		if a == "partial" {
+			t = fmt.Sprintf("[a|W%d]", i+1) // named, so that the host sees its binding
+		}
+		as = append(as, t)
+		if ind, ok := shapeIndirect[a.(string)]; ok {
+			pres = append(pres, fmt.Sprintf(ind[0], i+1))
+			ias = append(ias, fmt.Sprintf(ind[1], i+1))
+		} else if a == "var" {
+			ias = append(ias, fmt.Sprintf("V%d", i+1))
+		} else {
+			pres = append(pres, fmt.Sprintf("T%d = %s", i+1, shapeText[a.(string)]))
+			ias = append(ias, fmt.Sprintf("T%d", i+1))
+		}
 	}
 	calls := 0
 	var p *prolog.Interpreter
 	for _, name := range robustPreds[len(args)] {
-		goal := jt.Atom(name)
-		if len(as) > 0 {
-			goal += "(" + strings.Join(as, ", ") + ")"
-		}
-		if calls%25 == 0 || p == nil {
-			p = prolog.New(strings.NewReader("x. y."), &strings.Builder{})
-		}
-		calls++
-		fmt.Fprintf(os.Stderr, "CALL %s\n", goal)
-		o := callGoal(p, goal+".", iso, name)
-		switch o.kind {
-		case "panic", "hang", "non_iso_error":
-			return bad("?- "+goal+".", o)
-		case "error":
-			p = nil // an error may have left a stream or flag behind: fresh interpreter
+		for variant, av := range [][]string{as, ias} {
+			goal := jt.Atom(name)
+			if len(av) > 0 {
+				goal += "(" + strings.Join(av, ", ") + ")"
+			}
+			if variant == 1 {
+				if len(pres) == 0 {
+					continue
+				}
+				goal = strings.Join(pres, ", ") + ", " + goal
+			}
+			if calls%25 == 0 || p == nil {
+				p = prolog.New(strings.NewReader("x. y."), &strings.Builder{})
+			}
+			calls++
+			fmt.Fprintf(os.Stderr, "CALL %s\n", goal)
+			o := callGoal(p, goal+".", iso, name)
+			switch o.kind {
+			case "panic", "hang", "non_iso_error":
+				return bad("?- "+goal+".", o)
+			case "error":
+				p = nil // an error may have left a stream or flag behind: fresh interpreter
+			}
 		}
 	}
-	return map[string]J{"status": "ok", "input": fmt.Sprintf("%d predicates of arity %d applied to (%s)", calls, len(args), strings.Join(as, ", "))}
+	return map[string]J{"status": "ok", "input": fmt.Sprintf("%d calls of the predicates of arity %d applied to (%s)", calls, len(args), strings.Join(as, ", "))}
 }
